@@ -3295,6 +3295,8 @@ static Node *primary(Token **rest, Token *tok) {
       return new_num(0, start);
     if (ty->kind == TY_FLOAT || ty->kind == TY_DOUBLE)
       return new_num(1, start);
+    if (ty->kind == TY_STRUCT || ty->kind == TY_UNION)
+      return new_num(struct_reg_class(ty), start);
     return new_num(2, start); // long double is passed in memory
   }
 
